@@ -105,11 +105,9 @@ func (r *Run) execute() *Run {
 		r.Rec.Emit("hsFail", "c", errStr(err), "s", errStr(sr.err))
 		if c != nil && err == nil {
 			c.Close()
-			c.VerifStopPongTicker()
 		}
 		if sr.c != nil && sr.err == nil {
 			sr.c.Close()
-			sr.c.VerifStopPongTicker()
 		}
 		cancel()
 		r.Quiesce()
@@ -302,8 +300,11 @@ func (r *Run) execute() *Run {
 		r.Rec.Emit("inventory", "leaked", len(r.Leaked), "names", names,
 			"stuck", stuck, "blocked",
 			b2i(sb0)+b2i(rb0)+b2i(sb1)+b2i(rb1))
-		for _, ep := range []string{"c", "s"} {
-			conns[ep].VerifStopPongTicker()
+		if len(r.Leaked) > 0 {
+			// let a leaked ticker goroutine not keep the bubble alive
+			for _, ep := range []string{"c", "s"} {
+				conns[ep].VerifStopPongTicker()
+			}
 		}
 	}
 	return r
